@@ -159,8 +159,8 @@ pub fn strategy() -> BoxedStrategy<Case> {
 pub fn streams() -> Vec<Box<dyn AnyStream>> {
     vec![Box::new(Stream::<Case> {
         name: "strings",
-        quick: 40_000,
-        thorough: 2_000_000,
+        quick: 60_000,
+        thorough: 4_000_000,
         source: Source::Gen(Box::new(strategy)),
         check: Box::new(check),
     })]
